@@ -209,10 +209,13 @@ def run(ctx):
     for i in range(nb):
         lang = 'ja' if i % 3 == 2 else 'en'
         batch = R.make_batch(rng, lang, awkward=rng.choice([0.0, 0.15]), licensed_only=(i % 4 != 3), unispace=rng.choice([0.0, 0.0, 0.2]))
+        bare_batch = (i % 5 == 4)       # tokens without lemma / pos / ... as the readers and the failure placeholder make them
+        if bare_batch:
+            batch = R.make_batch(rng, lang, awkward=0.0, licensed_only=True, bare=0.7, with_failed=0.2)
         for sent in batch:
             for st in sent:
                 for tok in st.tree.tokens:
-                    if lang == 'en':
+                    if lang == 'en' and not bare_batch:
                         for k in ('lemma', 'pos', 'entity', 'chunk'):
                             tok.setdefault(k, 'XX')
         flat = [(si + 1, st.tree) for si, sent in enumerate(batch) for st in sent]
@@ -288,8 +291,21 @@ def run(ctx):
                     got, want = [], []
                     for (n, b), (n2, t) in zip(recs, flat):
                         rows, tree = D.read_conll(b)
-                        got.append((n, strip(tree, False, True), [r['head'] for r in rows], [r['word'] for r in rows]))
-                        want.append((n2, view(t, str, esc, None, heads=True), conll_heads(t), [esc(tok['word']) for tok in t.tokens]))
+                        # the part-of-speech tag is carried twice, by the POS column and by the tree column
+                        leaves_pos = []
+
+                        def leaf_pos(x):
+                            if x[0] == 'L':
+                                leaves_pos.append(x[3].get('pos'))
+                            else:
+                                for k in x[-1]:
+                                    leaf_pos(k)
+                        leaf_pos(tree)
+                        got.append((n, strip(tree, False, True), [r['head'] for r in rows], [r['word'] for r in rows],
+                                    [r['pos'] for r in rows], leaves_pos))
+                        wpos = [tok.get('pos', '_') for tok in t.tokens]
+                        want.append((n2, view(t, str, esc, None, heads=True), conll_heads(t), [esc(tok['word']) for tok in t.tokens],
+                                     wpos, wpos))
                     if len(recs) != len(flat):
                         got.append('count')
                 elif f == 'ptb':
